@@ -898,6 +898,7 @@ func refCanonical(s []byte, k int) []string {
 }
 
 func sequtilRound4_12(c *Ctx) {
+	canonReusedIterator(c)
 	// k around the machine-word boundaries, on pure upper-case ACGT and on mixed input
 	for _, k := range []int{15, 16, 17, 31, 32, 33, 63, 64, 65} {
 		for i := 0; i < c.n(6); i++ {
@@ -927,6 +928,41 @@ func sequtilRound4_12(c *Ctx) {
 			c.add(Case{Op: fmt.Sprintf("su.canon %d 0 %s", k, hx(s)), Impl: strings.Join(got, ","), Kind: "canon-word-k", Nontrivial: true, Oracle: oracle,
 				Note: fmt.Sprintf("CanonicalSubsequences(%q, %d)", s, k)})
 		}
+	}
+}
+
+// canonReusedIterator: the same iter.Seq value ranged over again after the caller refilled the sequence buffer
+func canonReusedIterator(c *Ctx) {
+	for i := 0; i < c.n(30); i++ {
+		n := 8 + c.rng.Intn(30)
+		k := 1 + c.rng.Intn(6)
+		buf := c.bytesFrom([]byte("ACGTacgtN"), n)
+		it := sequtil.CanonicalSubsequences(buf, k)
+		var first, second []string
+		st := safe(func() string {
+			for x := range it {
+				first = append(first, hx(x))
+			}
+			return ""
+		})
+		want1 := refCanonical(buf, k)
+		copy(buf, c.bytesFrom([]byte("ACGTacgtN"), n))
+		st2 := safe(func() string {
+			for x := range it {
+				second = append(second, hx(x))
+			}
+			return ""
+		})
+		want2 := refCanonical(buf, k)
+		oracle := ""
+		if st == "PANIC" || st2 == "PANIC" {
+			oracle = "CanonicalSubsequences panicked"
+		} else if strings.Join(first, ",") != strings.Join(want1, ",") {
+			oracle = "first range over the iterator is wrong"
+		} else if strings.Join(second, ",") != strings.Join(want2, ",") {
+			oracle = "ranging again over the same iterator value after the sequence buffer was refilled: items are not the canonical k-mers of the buffer's current content"
+		}
+		c.add(Case{Kind: "canon-iterator-reused", Nontrivial: true, Oracle: oracle, Note: fmt.Sprintf("CanonicalSubsequences(buf, %d) ranged, buf (%d bases) overwritten in place, ranged again", k, n)})
 	}
 }
 
@@ -991,10 +1027,63 @@ func sequtilRound4_13(c *Ctx) {
 			c.add(cs)
 		}
 	}
-	// long packed inputs over a biased byte alphabet (runs of 0x00 / 0xff at every alignment)
+	// long inputs into a dst that has a prefix and stale, non-zero spare capacity (smaller and larger than needed)
+	for i := 0; i < c.n(60); i++ {
+		n := []int{61, 63, 64, 65, 66, 67, 127, 129, 130, 255, 257, 1001}[c.rng.Intn(12)]
+		s := c.bytesFrom([]byte("aAcCgGtT"), n)
+		dl := c.rng.Intn(9)
+		spare := []int{0, 1, 3, n / 8, n/4 - 1, n / 4, n/4 + 1, n/4 + 2, n}[c.rng.Intn(9)]
+		if spare < 0 {
+			spare = 0
+		}
+		arena := make([]byte, dl+spare)
+		for j := range arena {
+			arena[j] = byte(0x81 + c.rng.Intn(0x7e))
+		}
+		dst := arena[:dl:dl+spare]
+		d0 := append([]byte(nil), dst...)
+		out := safe(func() string { return hx(sequtil.DNATo2Bit(dst, s)) })
+		want := append([]byte(nil), d0...)
+		for j, b := range s {
+			if j%4 == 0 {
+				want = append(want, 0)
+			}
+			want[len(d0)+j/4] |= byte(strings.IndexByte("ACGT", b&^0x20)) << (6 - 2*uint(j%4))
+		}
+		oracle := ""
+		if out != hx(want) {
+			oracle = fmt.Sprintf("DNATo2Bit of %d bases into a dst of len %d with %d bytes of stale spare capacity is wrong", n, dl, spare)
+		}
+		c.add(Case{Op: "su.to2bit " + hx(d0) + " " + hx(s), Impl: strings.Replace(out, "PANIC", "P", 1), Kind: "to2bit-long-stale-cap", Nontrivial: true, Oracle: oracle,
+			Note: fmt.Sprintf("DNATo2Bit(dst len %d cap %d with stale bytes, %d bases)", dl, dl+spare, n)})
+	}
+	// long packed inputs over a biased byte alphabet (runs of 0x00 / 0xff at every alignment), with and without a dst prefix
 	for i := 0; i < c.n(60); i++ {
 		n := []int{31, 32, 33, 64, 100, 257}[c.rng.Intn(6)]
 		p := c.bytesFrom([]byte{0x00, 0xff, 0xff, 0xff, 0x55, 0xaa, byte(c.rng.Intn(256))}, n)
+		if i%3 == 0 { // long runs of one byte
+			p = bytes.Repeat([]byte{p[0]}, n)
+			copy(p[n/2:], bytes.Repeat([]byte{p[1]}, 9))
+		}
+		if i%2 == 1 {
+			pl := 1 + c.rng.Intn(12)
+			arena := make([]byte, pl, pl+c.rng.Intn(3)*n)
+			copy(arena, c.bytesFrom([]byte(">read12\nxyzACGT"), pl))
+			pre := arena
+			p0 := append([]byte(nil), pre...)
+			got := safe(func() string { return hx(sequtil.DNAFrom2Bit(pre, p)) })
+			want := append([]byte(nil), p0...)
+			for _, b := range p {
+				want = append(want, "ACGT"[b>>6&3], "ACGT"[b>>4&3], "ACGT"[b>>2&3], "ACGT"[b&3])
+			}
+			oracle := ""
+			if got != hx(want) {
+				oracle = fmt.Sprintf("DNAFrom2Bit of %d packed bytes appended to a %d-byte prefix is wrong", n, len(p0))
+			}
+			c.add(Case{Op: "su.from2bit " + hx(p0) + " " + hx(p), Impl: strings.Replace(got, "PANIC", "P", 1), Kind: "from2bit-long-prefix", Nontrivial: true, Oracle: oracle,
+				Note: fmt.Sprintf("DNAFrom2Bit(%q, % x…) %d bytes", p0, p[:8], n)})
+			continue
+		}
 		got := safe(func() string { return hx(sequtil.DNAFrom2Bit(nil, p)) })
 		want := make([]byte, 0, 4*n)
 		for _, b := range p {
